@@ -92,9 +92,9 @@ func (w *Writer) Rotate(fs storage.FileSystem) *Writer {
 
 	// Include all data from previous buffers
 	for i, b := range w.sealedBuffers {
-		nextLog.sealedBuffers[i] = &bufferSegment{buf: b.buf}
+		nextLog.sealedBuffers[i] = &bufferSegment{buf: b.buf, latestSeqNum: b.latestSeqNum}
 	}
-	nextLog.sealedBuffers[len(w.sealedBuffers)] = &bufferSegment{buf: w.activeBuffer.buf}
+	nextLog.sealedBuffers[len(w.sealedBuffers)] = &bufferSegment{buf: w.activeBuffer.buf, latestSeqNum: w.latestSeqNum}
 
 	// And initialize a new active buffer
 	nextLog.activeBuffer = &bufferSegment{}
